@@ -5,6 +5,7 @@ addresses, checksum modulus and bit expressions are regenerated from /repo (Gen/
 -/
 import CfVerif.Proofs.C14
 import CfVerif.Proofs.C14Ow
+import CfVerif.Proofs.C14Lh
 namespace CfVerif.C14
 open CfVerif
 
@@ -51,6 +52,32 @@ theorem gen_ow_parse : Gen.C14.owRHdrArgs = ["data"] ∧ Gen.C14.owRHdrTargets =
     Gen.C14.owRElemAssigns = ["data[-1]", "data[2:-1]", "elem_data[2 + elen:]", "elem_data[2:2 + elen].decode('ISO-8859-1')"] ∧
     Gen.C14.owRLoopCond = "len(elem_data) > 0" ∧
     Gen.C14.owNames = ["Board name", "Board revision", "Custom"] := by decide
+
+theorem gen_lh_geo : Gen.C14.lhGeoReadVectorArgs = ["data[0 * self.SIZE_VECTOR:1 * self.SIZE_VECTOR]",
+      "data[1 * self.SIZE_VECTOR:2 * self.SIZE_VECTOR]", "data[2 * self.SIZE_VECTOR:3 * self.SIZE_VECTOR]",
+      "data[3 * self.SIZE_VECTOR:4 * self.SIZE_VECTOR]"] ∧
+    Gen.C14.lhGeoValidRArgs = ["data[4 * self.SIZE_VECTOR:]"] ∧
+    Gen.C14.lhGeoAddVectorArgs = ["self.origin", "self.rotation_matrix[0]", "self.rotation_matrix[1]", "self.rotation_matrix[2]"] ∧
+    Gen.C14.lhGeoValidWArgs = ["self.valid"] ∧ Gen.C14.lhVecWArgs = ["vector[0]", "vector[1]", "vector[2]"] ∧
+    Gen.C14.lhVecRArgs = ["data"] ∧ Gen.C14.lhVecRTargets = ["x", "y", "z"] ∧ Gen.C14.lhVecRReturn = ["[x, y, z]"] := by decide
+theorem gen_lh_calib : Gen.C14.lhCalibUnpackSweepArgs = ["data[0:self.SIZE_SWEEP]", "data[self.SIZE_SWEEP:self.SIZE_SWEEP * 2]"] ∧
+    Gen.C14.lhCalibTailRArgs = ["data[self.SIZE_SWEEP * 2:]"] ∧ Gen.C14.lhCalibTailRTargets = ["self.uid", "self.valid"] ∧
+    Gen.C14.lhSweepRArgs = ["data"] ∧
+    Gen.C14.lhSweepRTargets = ["result.phase", "result.tilt", "result.curve", "result.gibmag", "result.gibphase",
+      "result.ogeemag", "result.ogeephase"] ∧
+    Gen.C14.lhCalibPackSweepArgs = ["self.sweeps[0]", "self.sweeps[1]"] ∧ Gen.C14.lhCalibTailWArgs = ["self.uid", "self.valid"] ∧
+    Gen.C14.lhSweepWArgs = ["sweep_calib.phase", "sweep_calib.tilt", "sweep_calib.curve", "sweep_calib.gibmag",
+      "sweep_calib.gibphase", "sweep_calib.ogeemag", "sweep_calib.ogeephase"] := by decide
+theorem gen_lh_memory : Gen.C14.lhNewDataCompares = ["mem.id == self.id", "addr < self.CALIB_START_ADDR"] ∧
+    Gen.C14.lhGeoReadAddrLenSrc = "LighthouseBsGeometry.SIZE_GEOMETRY" ∧
+    Gen.C14.lhCalibReadAddrLenSrc = "LighthouseBsCalibration.SIZE_CALIBRATION" ∧
+    Gen.C14.lhGeoWriteAddrCall = ["self", "geo_addr", "data"] ∧ Gen.C14.lhCalibWriteAddrCall = ["self", "calib_addr", "data"] ∧
+    Gen.C14.lhGeoWriteAddrAddMem = ["geo_data.add_mem_data(data)"] ∧
+    Gen.C14.lhCalibWriteAddrAddMem = ["calibration_data.add_mem_data(data)"] := by decide
+/-- layout facts the theorems need: the two containers fit their pages and every geometry page lies below the
+calibration area (so `new_data` picks the right parser) -/
+theorem gen_lh_pages : Gen.C14.lhSizeGeometry ≤ Gen.C14.lhPageSize ∧ Gen.C14.lhSizeCalibration ≤ Gen.C14.lhPageSize ∧
+    Gen.C14.lhGeoStart + Gen.C14.lhNrOfChannels * Gen.C14.lhPageSize ≤ Gen.C14.lhCalibStart := by decide
 
 /-! ## EEPROM radio configuration -/
 
@@ -201,6 +228,39 @@ the unrepaired parser still reports valid. -/
 theorem ow_valid_iff_crc_live_counterexample :
     owUpdateLive (d12Image.set 14 0x64) = .ok ⟨12, 188, 1, [], true, true⟩ ∧
     owUpdate (d12Image.set 14 0x64) = .ok ⟨12, 188, 1, [], false, true⟩ := by decide +kernel
+
+/-! ## Lighthouse geometry and calibration, memory layout -/
+
+/-- Geometry container: every image `add_mem_data` produces (one is produced for all float32 contents) is 49 bytes
+and `set_from_mem_data` returns the same origin, rotation rows and valid flag. -/
+theorem lh_geo_container_roundtrip (g : Geo) (img : List UInt8) (h : geoImage g = .ok img) :
+    geoParse img = .ok g ∧ img.length = 49 := geo_roundtrip_aux h
+
+/-- Calibration container: 61 bytes; both sweeps (7 float32 each), uid and valid flag come back. -/
+theorem lh_calib_container_roundtrip (c : Calib) (img : List UInt8) (h : calibImage c = .ok img) :
+    calibParse img = .ok c ∧ img.length = 61 := calib_roundtrip_aux h
+
+/-- Through `LighthouseMemory`: geometry written for base station `bs` (< 16) into any memory is what
+`read_geo_data(bs)` delivers (same page address, the geometry parser is chosen). -/
+theorem lh_geo_roundtrip (m : Mem) (bs : Nat) (hbs : bs < Gen.C14.lhNrOfChannels) (g : Geo) (m' : Mem)
+    (h : lhWriteGeo m bs g = .ok m') : lhReadGeo m' bs = .ok (.geo g) := lh_geo_roundtrip_aux m bs hbs g m' h
+
+/-- ... and calibration data for any base station. -/
+theorem lh_calib_roundtrip (m : Mem) (bs : Nat) (c : Calib) (m' : Mem)
+    (h : lhWriteCalib m bs c = .ok m') : lhReadCalib m' bs = .ok (.calib c) := lh_calib_roundtrip_aux m bs c m' h
+
+/-- Any subset of base stations: geometries for any set of distinct base stations (< 16) and then calibrations
+for any set of distinct base stations, written one after the other as `LighthouseMemHelper` does, all read back
+unchanged - no page overlaps another. -/
+theorem lh_config_roundtrip (gs : List (Nat × Geo)) (cs : List (Nat × Calib)) (m mg mc : Mem)
+    (hg : lhWriteGeos m gs = .ok mg) (hc : lhWriteCalibs mg cs = .ok mc)
+    (hgn : (gs.map (·.1)).Nodup) (hcn : (cs.map (·.1)).Nodup) (hlt : ∀ p ∈ gs, p.1 < Gen.C14.lhNrOfChannels) :
+    (∀ p ∈ gs, lhReadGeo mc p.1 = .ok (.geo p.2)) ∧ (∀ p ∈ cs, lhReadCalib mc p.1 = .ok (.calib p.2)) :=
+  lh_config_roundtrip_aux gs cs m mg mc hg hc hgn hcn hlt
+
+example : geoImage ⟨⟨0x3F800000, 0, 0xBF800000⟩, ⟨0x7F7FFFFF, 1, 0x80000000⟩, ⟨0, 0, 0⟩, ⟨0x7FC00000, 0x7F800000, 0xFF800000⟩, true⟩ =
+    .ok [0,0,128,63, 0,0,0,0, 0,0,128,191,  255,255,127,127, 1,0,0,0, 0,0,0,128,  0,0,0,0, 0,0,0,0, 0,0,0,0,
+         0,0,192,127, 0,0,128,127, 0,0,128,255,  1] := by decide
 
 example : i2cImage { version := 1, channel := 80, speed := 2, pitch := 0, roll := 0x3f800000, address := some 0xE7E7E7E7E7 } =
     .ok [48, 120, 66, 67, 1, 80, 2, 0, 0, 0, 0, 0, 0, 128, 63, 231, 231, 231, 231, 231, 194] := by decide
